@@ -125,3 +125,52 @@ func VerifHarness_C19_allocate() {
 	vCover(a != nil, "C19.cover_allocate_success")
 	vReach("end")
 }
+
+// EVEN-PORT Allocate: the success carries a RESERVATION-TOKEN, and a retransmission of the request gets
+// exactly the same success (same relayed address, lifetime and token).
+//
+//verif:props=C19 replay=model unwind=20 bounds="EVEN-PORT with R=0/1; the port source hands out an even port; arbitrary credential verdicts; retransmission with the same transaction id"
+func VerifHarness_C19_allocate_even_port() {
+	s := vNewSrv(false, false)
+	s.env.RelayPort = 50000
+	src := allocation.VUDPAddr4()
+	r8 := byte(0)
+	if vBool() {
+		r8 = 0x80
+	}
+	setters := append([]stun.Setter{
+		vRawAttr{stun.AttrRequestedTransport, []byte{17, 0, 0, 0}},
+		vRawAttr{stun.AttrEvenPort, []byte{r8}},
+	}, vCreds()...)
+	msg := vNewMsg(stun.MethodAllocate, stun.ClassRequest, setters...)
+	req := s.request(src)
+	_ = handleAllocateRequest(req, msg)
+	r := s.response(req, msg, stun.MethodAllocate)
+	if !vIsSuccess(r) {
+		vReach("end")
+		return
+	}
+	var tok proto.ReservationToken
+	vAssert(tok.GetFrom(r) == nil, "C19.even_port_success_carries_a_reservation_token")
+	// retransmission
+	msg2 := vNewMsg(stun.MethodAllocate, stun.ClassRequest, setters...)
+	msg2.TransactionID = msg.TransactionID
+	msg2.WriteTransactionID()
+	s.conn.Writes = nil
+	s.nonce.validated, s.auth.calls = 0, 0
+	relays := len(s.env.Relays)
+	_ = handleAllocateRequest(req, msg2)
+	r2 := s.response(req, msg2, stun.MethodAllocate)
+	vAssert(len(s.env.Relays) == relays, "C19.retransmitted_even_port_allocate_creates_nothing")
+	if r2 != nil && s.authPassed() {
+		vAssert(vIsSuccess(r2), "C19.retransmitted_allocate_gets_success_again")
+		var tok2 proto.ReservationToken
+		vAssert(tok2.GetFrom(r2) == nil, "C19.retransmit_carries_the_reservation_token_again")
+		vAssert(vBytesEq(tok, tok2), "C19.retransmit_carries_the_same_reservation_token")
+		var x1, x2 proto.RelayedAddress
+		vAssume(x1.GetFrom(r) == nil)
+		vAssert(x2.GetFrom(r2) == nil && x1.Port == x2.Port && vIPEq(x1.IP, x2.IP), "C19.retransmit_reports_the_same_relayed_address")
+	}
+	vCover(vIsSuccess(r2), "C19.cover_even_port_retransmit")
+	vReach("end")
+}
